@@ -17,11 +17,14 @@ for f in sorted(glob.glob(os.path.join(V, "seeded", "*", "meta.json"))):
             det.append("%s (%s)" % (c, ", ".join(kinds)[:110]))
         else:
             det.append("%s: exit %s" % (c, r["exit"]))
+    if m.get("detect_tier") == "thorough":
+        det = ["thorough tier only: " + d for d in det]
     rows.append((m["id"], m["property"], desc, "; ".join(det), m["detected"]))
 n = len(rows)
 nd = sum(1 for r in rows if r[4])
+nth = sum(1 for f in glob.glob(os.path.join(V, "seeded", "*", "meta.json")) if json.load(open(f)).get("detect_tier") == "thorough" and json.load(open(f)).get("detected"))
 out = []
-out.append("%d seeded changes are kept under `seeded/<id>/` (patch.diff, the author's demonstration, notes.md with the trigger conditions, meta.json with what was run). Each was written by a fresh sub-agent that saw only the property text and a scratch worktree of /repo; each was re-confirmed by `tools/seeded_pipeline.py` on /repo's current HEAD (demonstration passes without the change and fails with it; the 84 baseline tests + 10 doctests still pass, same 4 known failures) and then the property's quick check was run in /verif against /repo with the change applied (and undone straight afterwards). %d of %d are caught by the quick tier." % (n, nd, n))
+out.append("%d seeded changes are kept under `seeded/<id>/` (patch.diff, the author's demonstration, notes.md with the trigger conditions, meta.json with what was run). Each was written by a fresh sub-agent that saw only the property text and a scratch worktree of /repo; each was re-confirmed by `tools/seeded_pipeline.py` on /repo's current HEAD (demonstration passes without the change and fails with it; the 84 baseline tests + 10 doctests still pass, same 4 known failures) and then the property's quick check was run in /verif against /repo with the change applied (and undone straight afterwards). %d of %d are caught by the quick tier%s." % (n, nd - nth, n, "" if not nth else ", %d more by the thorough tier only (marked in the table)" % nth))
 out.append("")
 out.append("| id | file: what the change is (title of the author's notes.md; trigger conditions are in seeded/<id>/notes.md and meta.json) | caught by (violation kinds) |")
 out.append("|---|---|---|")
